@@ -3,8 +3,8 @@
     YAML presenter places a scalar of each style in the file (the relations imply the guard; see Proofs).
 
     Executable definitions and inductive relations only. *)
-From Coq Require Import List String Ascii ZArith Bool Lia.
-From PintV Require Import Common.Bytes Model.Position.
+From Coq Require Import List String Ascii ZArith NArith Bool Lia.
+From PintV Require Import Common.Bytes Model.CommentsUnicode Model.Position.
 Import ListNotations.
 Local Open Scope Z_scope.
 Local Open Scope list_scope.
@@ -83,19 +83,20 @@ Fixpoint gscan (bytes : string) (need : ascii) (rest : string) : bool * option (
   end.
 
 (** [lay_ok ls col minCol pending need rest]: walking the lines [ls] from column [col] (then [minCol]) the
-    matcher meets the remaining value in order, with exactly one value byte (' ' or '\n') per line break
-    it crosses after the first match, none before it, and only line breaks left when the lines run out.
-    [pending] = the fold byte consumed by the previous line break ([None] = nothing matched so far).
-    Appendix C of DESIGN.md: (g1) each segment is found from the start column, (g2) nothing equal to the
-    pending fold byte follows the segment on its line, (g3) one value byte per line break, (g4) nothing is
-    matched before the first content line, (g5) empty values are handled separately. *)
+    matcher exhausts the remaining value [need :: rest] up to trailing line breaks.  [pending] = the fold byte
+    consumed by the previous line break ([None] = that break consumed nothing).
+    This is ONLY a completeness condition (the scan of every line finds its segment, Appendix C g1): since the
+    fix commits the positions spell a prefix of the value UNCONDITIONALLY (theorem [C06_positions_spell_prefix]);
+    the former conditions g2 (trailing blanks), g3 (one value byte per line break) and g4 (header bytes) are gone.
+    What remains: when the lines run out, or the value ends in a consumed break, only line breaks may be left
+    (a consumed break gets its position on the NEXT iteration, so a trailing consumed ' ' would be lost). *)
 Fixpoint lay_ok (ls : list string) (col minCol : Z) (pending : option ascii) (need : ascii) (rest : string) : bool :=
   match ls with
   | [] =>
       match pending with
-      | Some c => Ascii.eqb c newline && all_newlines (String need rest)
-      | None => false
-      end
+      | Some c => Ascii.eqb c newline
+      | None => true
+      end && all_newlines (String need rest)
   | line :: more =>
       let res :=
         if slen line =? 0 then Some (false, Some (need, rest))
@@ -106,24 +107,34 @@ Fixpoint lay_ok (ls : list string) (col minCol : Z) (pending : option ascii) (ne
       match res with
       | None => false
       | Some (_, None) => true
-      | Some (m, Some (n, r)) =>
-          let started := match pending with Some _ => true | None => m end in
+      | Some (_, Some (n, r)) =>
           if is_fold_char n then
-            started && match r with
-                       | EmptyString => Ascii.eqb n newline
-                       | String n' r' => lay_ok more minCol minCol (Some n) n' r'
-                       end
-          else negb started && lay_ok more minCol minCol None n r
+            match r with
+            | EmptyString => Ascii.eqb n newline
+            | String n' r' => lay_ok more minCol minCol (Some n) n' r'
+            end
+          else lay_ok more minCol minCol None n r
       end
   end.
 
-(** The guard for a whole node. *)
+(** The guard for a whole node (mirrors [new_position_range]). *)
 Definition node_ok (lines : list string) (n : snode) (minCol : Z) : bool :=
   match sn_value n with
   | EmptyString => false
   | String need rest =>
-      (1 <=? sn_line n) &&
-      lay_ok (skipn (Z.to_nat (sn_line n - 1)) lines) (sn_col n) minCol None need rest
+      (* a value of line breaks only gets no position at all: the one-column fallback is returned *)
+      negb (all_newlines (String need rest)) &&
+      if sn_block n then
+        (0 <=? sn_line n) &&
+        lay_ok (skipn (Z.to_nat (sn_line n)) lines) minCol minCol None need rest
+      else
+        (1 <=? sn_line n) &&
+        let ls := skipn (Z.to_nat (sn_line n - 1)) lines in
+        let col0 := match ls with
+                    | l :: _ => if slen l =? 0 then sn_col n else first_col l n
+                    | [] => sn_col n
+                    end in
+        lay_ok ls col0 minCol None need rest
   end.
 
 Definition no_newline (s : string) : Prop := forall k, String.get k s <> Some newline.
@@ -201,10 +212,20 @@ Definition line_at (lines : list string) (l : Z) : option string :=
   if 1 <=? l then nth_error lines (Z.to_nat (l - 1)) else None.
 
 (** One-line scalar: from its (byte) column on, the line reads [token ++ post]. *)
+(** yaml.v3 reports the column in characters; the theorems are stated for scalars preceded by ASCII text on their
+    line, where characters are bytes (a non-ASCII prefix is converted by [byte_column]: correspondence-tested, and
+    the example [C06_multibyte_prefix_fixed]). *)
+Fixpoint ascii_only (s : string) : bool :=
+  match s with
+  | EmptyString => true
+  | String c r => N.ltb (N_of_ascii c) 128 && ascii_only r
+  end.
+
 Definition one_line (lines : list string) (n : snode) (token : string) : Prop :=
   exists l pre post,
     line_at lines (sn_line n) = Some l /\
     l = (pre ++ token ++ post)%string /\
+    ascii_only pre = true /\
     sn_col n = slen pre + 1.
 
 Inductive style1 := Plain | SingleQuoted | DoubleQuotedSimple.
@@ -220,7 +241,8 @@ Definition token_of (st : style1) (v : string) : string :=
 (** [Lay1 st lines n]: the node's non-empty value is presented on one line in style [st]. For plain scalars
     the value neither starts nor ends with a space (YAML strips them). *)
 Definition Lay1 (st : style1) (lines : list string) (n : snode) : Prop :=
-  sn_value n <> EmptyString /\
+  sn_value n <> EmptyString /\ all_newlines (sn_value n) = false /\
+  sn_block n = false /\ sn_anchor n = EmptyString /\
   one_line lines n (token_of st (sn_value n)) /\
   (st = Plain -> starts_with_space (sn_value n) = false).
 
@@ -270,7 +292,7 @@ Definition bl_value (literal : bool) (b : block_layout) : string :=
   (bl_first b ++ vsuffix (block_sep literal) (bl_items b) (bl_tail b))%string.
 
 Definition bl_node (literal : bool) (b : block_layout) : snode :=
-  mksn (bl_value literal b) (Z.of_nat (List.length (bl_pre b)) + 1) (slen (bl_keyline_pre b) + 1).
+  mksn (bl_value literal b) (Z.of_nat (List.length (bl_pre b)) + 1) (slen (bl_keyline_pre b) + 1) true EmptyString.
 
 (** bodies are non-blank; in a folded block no body starts with a blank and there are no blank lines; a blank
     line is never the last item (trailing blank lines belong to [after] and [tail]) *)
@@ -281,18 +303,16 @@ Fixpoint items_ok (literal : bool) (items : list bitem) : bool :=
   | Blank _ :: r => literal && match r with [] => false | _ => true end && items_ok literal r
   end.
 
-(** The guard of the block theorems (Appendix C: g1 indentation, g4 header, no leading blank). *)
+(** The guard of the block theorems.  The header line (indicator, chomping/indentation indicators, comment) is
+    ARBITRARY: the scan starts on the line after it.  The first content line may start with blanks (explicit
+    indentation indicator).  What remains of Appendix C is g1: the content is indented by at least minColumn-1
+    (the parser passes minColumn = 1, so this always holds there). *)
 Definition block_ok (literal : bool) (b : block_layout) (minCol : Z) : bool :=
-  match bl_header b, bl_first b with
-  | String h _, String f _ =>
-      negb (Ascii.eqb h space) &&
-      negb (is_fold_char f) && has_nonspace (bl_first b) &&
-      negb (mem_char f (bl_header b)) &&                         (* g4 *)
-      (minCol - 1 <=? Z.of_nat (bl_indent b)) && (1 <=? minCol) && (* g1 *)
-      items_ok literal (bl_items b) &&
-      forallb no_newline_b (bl_after b)
-  | _, _ => false
-  end.
+  negb (all_newlines (bl_value literal b)) &&
+  has_nonspace (bl_first b) &&
+  (minCol - 1 <=? Z.of_nat (bl_indent b)) && (1 <=? minCol) && (* g1 *)
+  items_ok literal (bl_items b) &&
+  forallb no_newline_b (bl_after b).
 
 (** Multi-line plain scalar: first segment on the key line, every further segment on its own line
     [spaces k ++ segment] with [k >= minCol - 1] (g1) and no trailing blanks (g2: the line ends with the
@@ -318,9 +338,10 @@ Fixpoint pm_suffix (more : list (nat * string)) : string :=
 Definition pm_value (p : plain_ml_layout) : string := (pm_first p ++ pm_suffix (pm_more p))%string.
 
 Definition pm_node (p : plain_ml_layout) : snode :=
-  mksn (pm_value p) (Z.of_nat (List.length (pm_pre p)) + 1) (slen (pm_keyline_pre p) + 1).
+  mksn0 (pm_value p) (Z.of_nat (List.length (pm_pre p)) + 1) (slen (pm_keyline_pre p) + 1).
 
 Definition pm_ok (p : plain_ml_layout) (minCol : Z) : bool :=
+  negb (all_newlines (pm_value p)) && ascii_only (pm_keyline_pre p) &&
   has_nonspace (pm_first p) && negb (starts_with_space (pm_first p)) && (1 <=? minCol) &&
   forallb (fun ks => has_nonspace (snd ks) && negb (starts_with_space (snd ks)) &&
                      (minCol - 1 <=? Z.of_nat (fst ks))) (pm_more p).
@@ -351,7 +372,7 @@ Definition fm_value (p : flow_ml_layout) : string :=
   (fm_first p ++ pm_suffix (fm_mid p ++ [fm_last p]))%string.
 
 Definition fm_node (p : flow_ml_layout) : snode :=
-  mksn (fm_value p) (Z.of_nat (List.length (fm_pre p)) + 1) (slen (fm_keyline_pre p) + 1).
+  mksn0 (fm_value p) (Z.of_nat (List.length (fm_pre p)) + 1) (slen (fm_keyline_pre p) + 1).
 
 Definition seg_ok (minCol : Z) (ks : nat * string) : bool :=
   has_nonspace (snd ks) && negb (starts_with_space (snd ks)) && (minCol - 1 <=? Z.of_nat (fst ks)).
@@ -360,6 +381,7 @@ Definition fm_ok (p : flow_ml_layout) (minCol : Z) : bool :=
   match fm_first p with
   | EmptyString => false
   | String f _ =>
+      negb (all_newlines (fm_value p)) && ascii_only (fm_keyline_pre p) &&
       has_nonspace (fm_first p) && negb (Ascii.eqb f space) &&
       negb (starts_with_space (fm_open p)) && negb (mem_char f (fm_open p)) &&
       (1 <=? minCol) && forallb (seg_ok minCol) (fm_mid p) && seg_ok minCol (fm_last p)
@@ -393,8 +415,9 @@ Definition qm_value (p : quoted_ml_layout) : string :=
   (qm_first p ++ pm_suffix (qm_mid p ++ [qm_last p]))%string.
 
 Definition qm_node (p : quoted_ml_layout) : snode :=
-  mksn (qm_value p) (Z.of_nat (List.length (qm_pre p)) + 1) (slen (qm_keyline_pre p) + 1).
+  mksn0 (qm_value p) (Z.of_nat (List.length (qm_pre p)) + 1) (slen (qm_keyline_pre p) + 1).
 
 Definition qm_ok (p : quoted_ml_layout) (minCol : Z) : bool :=
+  negb (all_newlines (qm_value p)) && ascii_only (qm_keyline_pre p) &&
   has_nonspace (qm_first p) && negb (starts_with_space (qm_first p)) &&
   (1 <=? minCol) && forallb (seg_ok minCol) (qm_mid p) && seg_ok minCol (qm_last p).
